@@ -109,6 +109,16 @@ class Model:
                 self.nf_records[op['h']] = (op['lf'], len(self.lfs[op['lf']].nf_data) - 1)
         elif o == 'set':
             self.objs[op['h']].sets_later.append((op['attr'], op.get('part', 'value'), op['v'], step))
+        elif o == 'set_attrs':
+            for an, lit in (op.get('kwargs') or {}).items():
+                inner = lit.get('$dict') if isinstance(lit, dict) and '$dict' in lit else (
+                    lit.get('$setup') if isinstance(lit, dict) and '$setup' in lit else None)
+                if inner is None:
+                    self.objs[op['h']].sets_later.append((an, 'value', lit, step))
+                else:
+                    for part in ('value', 'units'):
+                        if inner.get(part) is not None:
+                            self.objs[op['h']].sets_later.append((an, part, inner[part], step))
         elif o == 'set_prop' and op['h'] in self.nf_records:
             lf, k = self.nf_records[op['h']]
             if op['prop'] == 'data':
